@@ -46,7 +46,33 @@ def _check_copy(ctx, w, what, orig_sig, code, copy):
     return True
 
 
-def _judge(ctx, v, code, rng):
+def _query(ctx, g, m):
+    """the read-only API a user calls between parsing and saving a tree"""
+    try:
+        m.get_used_names()
+        list(g.iter_errors(m))
+        for f in list(m.iter_funcdefs()) + list(m.iter_classdefs()):
+            f.get_decorators()
+            if f.type == 'funcdef':
+                f.get_params()
+                f.is_generator()
+        for i in m.iter_imports():
+            i.get_defined_names()
+        m.get_first_leaf(), m.get_last_leaf(), m.get_leaf_for_position((1, 0))
+        ctx.count('trees_queried')
+    except RecursionError:
+        ctx.count('recursion_error_skipped')
+    except Exception:
+        ctx.count('query_raised_not_judged_here')      # C13/C14 judge the helpers themselves
+
+
+def _answers(g, m):
+    used = m.get_used_names()
+    return (sorted((k, len(v)) for k, v in used.items()), [f.name.value for f in m.iter_funcdefs()],
+            [(i.code, i.start_pos) for i in g.iter_errors(m)][:20])
+
+
+def _judge(ctx, v, code, rng, deep=False):
     import parso
     g = parso.load_grammar(version=v)
     try:
@@ -64,8 +90,15 @@ def _judge(ctx, v, code, rng):
         try:
             text = m.dump(indent=ind)
             copy = eval(text, dict(ns))
-        except RecursionError:
+        except (RecursionError, MemoryError):
             ctx.count('recursion_error_skipped')
+            continue
+        except SyntaxError as e:
+            if 'too many nested parentheses' in str(e) or 'parser stack overflow' in str(e) or 'too complex' in str(e):
+                ctx.count('dump_beyond_the_nesting_limit_of_eval_skipped')      # CPython's limit on the dump text, not parso's
+                continue
+            info = harness.exc_info(e)
+            ctx.violation('dump_eval_raised', 'dump(indent=%r)/eval raised %s: %s' % (ind, info['type'], info['text']), w, exc=info)
             continue
         except Exception as e:
             info = harness.exc_info(e)
@@ -75,7 +108,12 @@ def _judge(ctx, v, code, rng):
         if _check_copy(ctx, w, 'dump_eval', sig, code, copy):
             if copy.dump(indent=ind) != text:
                 ctx.violation('dump_not_idempotent', 'dump of the rebuilt tree differs (indent=%r)' % (ind,), w)
-    # --- pickle
+    # --- pickle: of the fresh tree, and of the tree after it has been queried (the helpers memoise on the tree)
+    queried = ctx.counters['evaluations'] % 2 == 0
+    if queried:
+        _query(ctx, g, m)
+        if tree_sig(m) != sig:
+            ctx.violation('queries_modified_tree', 'the read-only helpers changed the tree', w)
     for proto in (2, pickle.HIGHEST_PROTOCOL):
         try:
             copy = pickle.loads(pickle.dumps(m, proto))
@@ -87,11 +125,24 @@ def _judge(ctx, v, code, rng):
             ctx.violation('pickle_raised', 'pickle protocol %d raised %s: %s' % (proto, info['type'], info['text']), w, exc=info)
             continue
         ctx.count('pickle_roundtrips')
-        _check_copy(ctx, w, 'pickle', sig, code, copy)
+        if queried:
+            ctx.count('pickle_roundtrips_of_queried_trees')
+        if _check_copy(ctx, w, 'pickle', sig, code, copy) and queried:
+            # the copy answers the same queries
+            try:
+                a, b = _answers(g, m), _answers(g, copy)
+            except RecursionError:
+                ctx.count('recursion_error_skipped')
+            else:
+                if a != b:
+                    ctx.violation('pickle_answers_differ', 'the unpickled tree answers the helper queries differently: %r != %r' % (a, b), w)
     # --- refactor
     try:
         if g.refactor(m, {}) != code:
             ctx.violation('refactor_empty_map', 'refactor with an empty map does not return the code', w)
+    except RecursionError:
+        ctx.count('recursion_error_skipped')
+        return
     except Exception as e:
         info = harness.exc_info(e)
         ctx.violation('refactor_raised', 'refactor({}) raised %s: %s' % (info['type'], info['text']), w, exc=info)
@@ -100,7 +151,18 @@ def _judge(ctx, v, code, rng):
         L = leaves(m)
         idx = {id(l): k for k, l in enumerate(L)}
         chosen, taken = [], set()
-        for n in rng.sample(nodes, min(len(nodes), rng.randint(1, 6))):
+        cand = rng.sample(nodes, min(len(nodes), rng.randint(1, 6)))
+        if deep:
+            # the deepest leaf (and a node some levels above it) first: targets at every depth the walkers can reach
+            dl, dd = max(((l, _depth(l)) for l in L), key=lambda t: t[1])
+            up = dl
+            for _ in range(rng.randint(0, 12)):
+                if up.parent is not None and up.parent is not m:
+                    up = up.parent
+            cand = [up] + cand
+            ctx.observe('deep_target_depth_div10', _depth(up) // 10)
+            ctx.count('deep_refactor_targets')
+        for n in cand:
             f = n
             while getattr(f, 'children', None):
                 f = f.children[0]
@@ -128,6 +190,8 @@ def _judge(ctx, v, code, rng):
         exp = ''.join(out)
         try:
             got = g.refactor(m, mapping)
+        except RecursionError:
+            ctx.count('recursion_error_skipped')
         except Exception as e:
             info = harness.exc_info(e)
             ctx.violation('refactor_raised', 'refactor raised %s: %s' % (info['type'], info['text']), w, exc=info)
@@ -151,8 +215,21 @@ def _judge(ctx, v, code, rng):
         ctx.sample({'version': v, 'code': code, 'dump': m.dump(indent=None)[:300]})
 
 
+def _depth(n):
+    d = 0
+    while n.parent is not None:
+        n = n.parent
+        d += 1
+    return d
+
+
 def run_shard(spec, ctx):
     rng = random.Random(spec['seed'] + 11)
+    if spec['kind'] == 'deep':
+        for v, code, origin in _text.cases(spec, ctx, gen=lambda r, files: G.deep(r)):
+            ctx.count('deep_programs')
+            _judge(ctx, v, code, rng, deep=True)
+        return
     it = _text.whole_files(spec, ctx) if spec['kind'] == 'files' else _text.cases(spec, ctx)
     for v, code, origin in it:
         _judge(ctx, v, code, rng)
@@ -160,7 +237,7 @@ def run_shard(spec, ctx):
 
 def replay(w, ctx):
     for s in range(20):
-        _judge(ctx, w['version'], w['code'], random.Random(s))
+        _judge(ctx, w['version'], w['code'], random.Random(s), deep=s % 2 == 1)
 
 
 def shards(tier, seed):
@@ -168,8 +245,10 @@ def shards(tier, seed):
     nf = 8
     s += [{'kind': 'files', 'shard': i, 'nshards': nf, 'file_stride': 40 if tier == 'quick' else 2,
            'budget_s': 60 if tier == 'quick' else 900} for i in range(nf)]
+    s += [{'kind': 'deep', 'n': 150 if tier == 'quick' else 4000, 'budget_s': 60 if tier == 'quick' else 900} for i in range(4)]
     return s
 
 
 def floors(tier):
-    return {'evaluations': 2000, 'dump_evals': 8000, 'pickle_roundtrips': 4000, 'refactor_calls': 2000, 'set:classes': 30}
+    return {'evaluations': 2000, 'dump_evals': 8000, 'pickle_roundtrips': 4000, 'refactor_calls': 2000, 'set:classes': 30,
+            'pickle_roundtrips_of_queried_trees': 1500, 'deep_refactor_targets': 200, 'set:deep_target_depth_div10': 20}
